@@ -359,55 +359,66 @@ def r2_roles(ctx, s):
 # ---------------- R3 ---------------------------------------------------------
 
 def r3_kabsch(ctx, s):
+    """read off the composed result expression of _get_rotation_matrices:  A @ B  with A, B built from one SVD"""
     f = s.func("_get_rotation_matrices")
     ctx.need(param_names(f) == ["fixed", "mobile"], "_get_rotation_matrices(fixed, mobile)")
-    cov = single_def(f, "cov")
-    okc = ast.unparse(cov) == "np.sum(fixed[:, :, :, np.newaxis] * mobile[:, :, np.newaxis, :], axis=1)"
-    ctx.ob("R3.covariance", SUP, f.name, ast.unparse(cov), okc,
+    sm = summarize(f)
+    res = sm.result
+    ctx.need(res is not None, "_get_rotation_matrices: summarisable result")
+    if isinstance(res, ast.Call) and call_name(res) == "np.matmul" and len(res.args) == 2:
+        a, b = res.args
+    elif isinstance(res, ast.BinOp) and isinstance(res.op, ast.MatMult):
+        a, b = res.left, res.right
+    else:
+        ctx.ob("R3.product", SUP, f.name, ast.unparse(res)[:80], False, "rotation = U @ Vh: the result is not a product of two factors", f.lineno)
+        return
+
+    def strip_set(e):
+        """(base, [(index expr, value expr)]) of nested __set__(base, __idx__[..], value)"""
+        sets = []
+        while isinstance(e, ast.Call) and call_name(e) == "__set__" and len(e.args) == 3:
+            sets.append((e.args[1], e.args[2]))
+            e = e.args[0]
+        return e, sets
+
+    ab, asets = strip_set(a)
+    bb, bsets = strip_set(b)
+
+    def svd_item(e):
+        if isinstance(e, ast.Call) and call_name(e) == "__item__" and len(e.args) == 2 and isinstance(e.args[0], ast.Call) \
+                and call_name(e.args[0]) == "np.linalg.svd" and isinstance(e.args[1], ast.Constant):
+            return e.args[0], e.args[1].value
+        return None, None
+
+    sa_, ia = svd_item(ab)
+    sb_, ib = svd_item(bb)
+    ctx.ob("R3.product", SUP, f.name, f"item {ia} @ item {ib} of the SVD", sa_ is not None and sb_ is not None and ast.dump(sa_) == ast.dump(sb_)
+           and (ia, ib) == (0, 2), "rotation = U @ Vh (first and third SVD output, in this order)", f.lineno)
+    svd = sa_ if sa_ is not None else sb_
+    ctx.need(svd is not None, "np.linalg.svd in the rotation")
+    ctx.ob("R3.svd-input", SUP, f.name, ast.unparse(svd)[:90], len(svd.args) == 1 and not svd.keywords, "the SVD of the covariance (batched, full matrices)", f.lineno)
+    cov = svd.args[0]
+    ctx.ob("R3.covariance", SUP, f.name, ast.unparse(cov), same_expr(cov, "np.sum(fixed[:, :, :, np.newaxis] * mobile[:, :, np.newaxis, :], axis=1)"),
            "cov[m, i, j] = sum over atoms of fixed_i * mobile_j: with R = U Vh this orientation maps mobile onto fixed "
            "(the transposed covariance yields the inverse rotation)", f.lineno)
-    svd = [st for st in stmts(f) if isinstance(st, ast.Assign) and isinstance(st.value, ast.Call) and call_name(st.value) == "np.linalg.svd"]
-    ctx.need(len(svd) == 1 and isinstance(svd[0].targets[0], ast.Tuple) and len(svd[0].targets[0].elts) == 3, "u, s, vh = svd(cov)")
-    u, _, vh = (x.id for x in svd[0].targets[0].elts)
-    ctx.ob("R3.svd-input", SUP, f.name, ast.unparse(svd[0].value), ast.unparse(svd[0].value.args[0]) == "cov", "the SVD of the covariance", f.lineno)
-    cfg = CFG(f)
-    dom = cfg.dominators()
-    prod = [n for n in cfg.nodes if n.kind == "stmt" and isinstance(n.ast, ast.Assign) and isinstance(n.ast.value, (ast.Call, ast.BinOp))
-            and (call_name(n.ast.value) == "np.matmul" if isinstance(n.ast.value, ast.Call) else isinstance(n.ast.value.op, ast.MatMult))]
-    ctx.need(len(prod) == 1, "rotation product")
-    pv = prod[0].ast.value
-    a, b = (pv.args[0], pv.args[1]) if isinstance(pv, ast.Call) else (pv.left, pv.right)
-    ctx.ob("R3.product", SUP, f.name, ast.unparse(pv), ast.unparse(a) == u and ast.unparse(b) == vh,
-           "rotation = U @ Vh in this order", pv.lineno)
-    mask = [n for n in cfg.nodes if n.kind == "stmt" and isinstance(n.ast, ast.Assign) and isinstance(n.ast.value, ast.Compare)]
-    okm = False
-    mname = None
-    for n in mask:
-        c = n.ast.value
-        if isinstance(c.ops[0], ast.Lt) and const_eval(c.comparators[0]) == 0 and isinstance(c.left, ast.BinOp) and isinstance(c.left.op, ast.Mult):
-            dets = sorted(ast.unparse(x) for x in (c.left.left, c.left.right))
-            okm = dets == sorted([f"np.linalg.det({u})", f"np.linalg.det({vh})"])
-            mname = n.ast.targets[0].id
-    ctx.ob("R3.reflection-test", SUP, f.name, "det(U) * det(Vh) < 0", okm,
+    U, VH = f"__item__({ast.unparse(svd)}, 0)", f"__item__({ast.unparse(svd)}, 2)"
+    test = f"np.linalg.det({U}) * np.linalg.det({VH}) < 0"
+    sets = [("U", i_, v_) for i_, v_ in asets] + [("Vh", i_, v_) for i_, v_ in bsets]
+    okt = okf = False
+    con = "no reflection correction"
+    for which, idx, val in sets:
+        con = f"{which}{ast.unparse(idx)[7:]} = ..."
+        ctx.need(isinstance(idx, ast.Subscript) and isinstance(idx.slice, ast.Tuple) and len(idx.slice.elts) == 3, "three-axis index of the correction")
+        m_, r_, c_ = idx.slice.elts
+        okt = same_expr(m_, test)
+        base = U if which == "U" else VH
+        want_idx = (":", "-1") if which == "U" else ("-1", ":")
+        okf = (ast.unparse(r_), ast.unparse(c_)) == want_idx and same_expr(val, f"{base}[{ast.unparse(m_)}, {want_idx[0]}, {want_idx[1]}] * -1")
+    ctx.ob("R3.reflection-test", SUP, f.name, "det(U) * det(Vh) < 0", okt and len(sets) == 1,
            "an improper solution is recognised by the sign of det(U) det(Vh)", f.lineno)
-    flips = [n for n in cfg.nodes if n.kind == "stmt" and isinstance(n.ast, ast.AugAssign) and isinstance(n.ast.op, ast.Mult)
-             and const_eval(n.ast.value) == -1 and isinstance(n.ast.target, ast.Subscript)]
-    okf = False
-    con = "flip"
-    for n in flips:
-        t = n.ast.target
-        con = ast.unparse(n.ast)
-        sl = [ast.unparse(x) for x in t.slice.elts] if isinstance(t.slice, ast.Tuple) else []
-        if ast.unparse(t.value) == u:
-            okf = sl == [mname, ":", "-1"]
-        elif ast.unparse(t.value) == vh:
-            okf = sl == [mname, "-1", ":"]
-        okf = okf and n.id in dom[prod[0].id]
-    ctx.ob("R3.reflection-fix", SUP, f.name, con, okf,
+    ctx.ob("R3.reflection-fix", SUP, f.name, con, okf and len(sets) == 1,
            "where the solution is improper, the direction of the smallest singular value (last column of U / last row of Vh) "
            "is negated before the product: the result is the optimal proper rotation", f.lineno)
-    ret = ret_expr(f)
-    ctx.ob("R3.return", SUP, f.name, ast.unparse(ret), ast.unparse(ret) == ast.unparse(prod[0].ast.targets[0]), "the corrected product is returned", f.lineno)
 
 
 # ---------------- R4 ---------------------------------------------------------
@@ -578,8 +589,9 @@ MUTANTS = [
     Mutant("rotation-transposed", SUP, "AffineTransformation(-mob_centroid, rotation, fix_centroid)", "AffineTransformation(-mob_centroid, rotation.transpose(0, 2, 1), fix_centroid)", "R2.rotation-source"),
     Mutant("target-is-mobile-centroid", SUP, "AffineTransformation(-mob_centroid, rotation, fix_centroid)", "AffineTransformation(-mob_centroid, rotation, mob_centroid)", "R2.target-translation"),
     Mutant("target-sign", SUP, "AffineTransformation(-mob_centroid, rotation, fix_centroid)", "AffineTransformation(-mob_centroid, rotation, -fix_centroid)", "R2.target-translation"),
-    Mutant("kabsch-returns-uncorrected-factor", SUP, "    matrices = np.matmul(v, w)\n    return matrices", "    matrices = np.matmul(v, w)\n    return v", "R3.return"),
-    Mutant("svd-of-transposed-covariance", SUP, "v, s, w = np.linalg.svd(cov)", "v, s, w = np.linalg.svd(cov.transpose(0, 2, 1))", "R3.svd-input"),
+    Mutant("kabsch-returns-uncorrected-factor", SUP, "    matrices = np.matmul(v, w)\n    return matrices", "    matrices = np.matmul(v, w)\n    return v", "R3.product"),
+    Mutant("svd-of-transposed-covariance", SUP, "v, s, w = np.linalg.svd(cov)", "v, s, w = np.linalg.svd(cov.transpose(0, 2, 1))", "R3.covariance"),
+    Mutant("svd-reduced", SUP, "v, s, w = np.linalg.svd(cov)", "v, s, w = np.linalg.svd(cov, full_matrices=False, hermitian=True)", "R3.svd-input"),
     Mutant("outliers-judged-on-unfitted", SUP, "sq_dist = distance(filtered_fixed_coord, superimposed_coord) ** 2", "sq_dist = distance(filtered_fixed_coord, filtered_mobile_coord) ** 2", "R4.distance-pair"),
     Mutant("zero-iterations-accepted", SUP, "    if max_iterations < 1:", "    if max_iterations < 0:", "R4.iterations-guard"),
     Mutant("carry-hoisted-out-of-loop", SUP, "    for _ in range(max_iterations):\n        # Run superimposition\n        inlier_mask = updated_inlier_mask\n", "    inlier_mask = updated_inlier_mask\n    for _ in range(max_iterations):\n        # Run superimposition\n", "R4.loop-carry"),
